@@ -56,12 +56,41 @@ main:
   nop
 .export main
 """
+def elf64_seed():
+    """a small little-endian ELF64 relocatable-style file (written from the ELF specification): .text, .symtab, .strtab, .shstrtab"""
+    text = bytes([0x13, 0x00, 0x00, 0x00] * 4)                         # four RISC-V nops
+    strtab = b"\0main\0"
+    shstr = b"\0.text\0.symtab\0.strtab\0.shstrtab\0"
+    sym = struct.pack("<IBBHQQ", 0, 0, 0, 0, 0, 0) + struct.pack("<IBBHQQ", 1, 0x12, 0, 1, 0x1000, 16)
+    off = 64
+    blobs = []
+    for b in (text, sym, strtab, shstr):
+        blobs.append((off, b))
+        off += len(b)
+        off += (-off) % 8
+    shoff = off
+    def sh(name, typ, flags, addr, o, size, link=0, info=0, align=1, entsize=0):
+        return struct.pack("<IIQQQQIIQQ", name, typ, flags, addr, o, size, link, info, align, entsize)
+    shdrs = sh(0, 0, 0, 0, 0, 0, align=0)
+    shdrs += sh(1, 1, 6, 0x1000, blobs[0][0], len(text), align=4)
+    shdrs += sh(7, 2, 0, 0, blobs[1][0], len(sym), link=3, info=1, align=8, entsize=24)
+    shdrs += sh(15, 3, 0, 0, blobs[2][0], len(strtab))
+    shdrs += sh(23, 3, 0, 0, blobs[3][0], len(shstr))
+    hdr = b"\x7fELF" + bytes([2, 1, 1, 0]) + bytes(8) + struct.pack("<HHIQQQIHHHHHH", 1, 243, 1, 0x1000, 0, shoff, 0, 64, 0, 0, 64, 5, 4)
+    out = bytearray(hdr)
+    for o, b in blobs:
+        out += bytes(o - len(out)) + b
+    out += bytes(shoff - len(out)) + shdrs
+    return bytes(out)
+
+
 TI_TXT = "@f000\n31 40 00 04 1F 53 B0 12 0C F0 FC 3F 30 41\n@fffe\n00 F0\nq\n"
 EXT = {"hex": "f.hex", "srec": "f.srec", "elf": "f.elf", "wdc": "f.wdc", "uf2": "f.uf2", "amiga": "f.amiga", "macho": "f.macho", "bin": "f.bin"}
 TEXT_FORMATS = ("hex", "srec", "txt")
 BYTES = [0x00, 0x7f, 0x80, 0xff]
 TEXT_CHARS = ["0", "F", "G", ":", "S", "@", " ", "\n", "q"]
-WORDS = [0, 1, "-1", "+1", 0x7fffffff, 0x80000000, 0xffffffff, "size", "size+1"]
+WORDS = [0, 1, "-1", "+1", 0x7fffffff, 0x80000000, 0xffffffff, "size", "size+1", 0xfffffffc]
+QUADS = [0, 0x7fffffffffffffff, 0x8000000000000000, 0xffffffffffffffff, 0xfffffffffffffff0, "-size", "-size+16", "size"]
 HALVES = [0, 1, 0x7fff, 0x8000, 0xffff]
 SCRIPT = "info\nsymbols\nprint 0xf000-0xf010\nprint16 0-0x10\ndisasm 0xf000-0xf010\nregisters\nquit\n"
 
@@ -76,6 +105,7 @@ def make_seeds():
                 raise RuntimeError("seed %s/%s does not assemble: %s" % (pname, t, a.out[-300:]))
             seeds["%s.%s" % (pname, t)] = (EXT[t], a.file)
     seeds["hand.txt"] = ("f.txt", TI_TXT.encode())
+    seeds["hand64.elf"] = ("f.elf", elf64_seed())
     seeds["empty.bin"] = ("f.bin", b"")
     seeds["empty.hex"] = ("f.hex", b"")
     seeds["empty.elf"] = ("f.elf", b"")
@@ -115,6 +145,13 @@ def file_variants(sname, data, quick):
                     if v == old:
                         continue
                     yield "word%s@%d=%s" % ("le" if endian == "<" else "be", i, wv), data[:i] + struct.pack(endian + "I", v) + data[i + 4:]
+        if sname.endswith("64.elf"):
+            for i in range(0, n - 7, 8):
+                old = struct.unpack_from("<Q", data, i)[0]
+                for qv in (QUADS[1::2] if quick else QUADS):
+                    v = {"-size": -n, "-size+16": 16 - n, "size": n}.get(qv, qv) & 0xffffffffffffffff
+                    if v != old:
+                        yield "quad@%d=%s" % (i, qv if isinstance(qv, str) else "%x" % qv), data[:i] + struct.pack("<Q", v) + data[i + 8:]
         if not quick:
             for i in range(0, min(n - 1, 1200), 2):
                 for hv in HALVES:
@@ -150,9 +187,9 @@ def file_cases(seeds, quick):
 
 COMMANDS = ["asm", "break", "call", "clear", "disasm", "display", "dumpram", "dump_ram", "exit", "help", "info", "no_clear", "print", "print16",
             "print32", "push", "quit", "registers", "reg", "reset", "run", "set", "speed", "step", "stop", "symbols", "write", "write16", "write32",
-            "nosuch", ""]
+            "nosuch", "", "<sp>"]
 ARGS = ["", "0", "0x10", "10h", "0-0x20", "-", "0x10-", "zz", "-1", "0xffffffff", "x" * 300, "r5=1", "pc=0x1000", "=", "start",
-        "0xfffffff0-0xffffffff", "0x10 0x20 0x30", "1000000000000"]
+        "0xfffffff0-0xffffffff", "0x10 0x20 0x30", "1000000000000", "-10h", "0 -10h", "0 0x"]
 ARGS_PAIR = ["", "0", "0x10", "0-0x20", "-", "zz", "-1", "0xffffffff", "r5=1", "0xfffffff0-0xffffffff"]
 ARGS_MID = ["", "0x10", "0-0x20", "zz", "r5=1"]
 ARGS_SMALL = ["", "0x10"]
@@ -187,11 +224,13 @@ def sessions(quick):
 
 def session_cases(seeds, quick):
     fname, data = seeds["p3.hex"]
-    for ctx, argv, files in (("loaded", ["-msp430", fname], {fname: data}), ("nofile", ["-avr8"], {})):
+    for ctx, argv, files in (("loaded", ["-msp430", fname], {fname: data}), ("nofile", ["-avr8"], {}), ("loaded-nocpu", [fname], {fname: data})):
         for s in sessions(quick):
+            if ctx == "loaded-nocpu" and not (len(s) == 3 and s[0][1] == "" or len(s) == 1):
+                continue
             if ctx == "nofile" and (len(s) > 2 or (len(s) == 2 and not (s[0][1] in ARGS_MID and s[1][1] in ARGS_MID))):
                 continue
-            text = "speed 0\n" + "".join(("%s %s" % (c, a)).strip() + "\n" for c, a in s) + "quit\n"
+            text = "speed 0\n" + "".join((" " if c == "<sp>" else ("%s %s" % (c, a)).strip()) + "\n" for c, a in s) + "quit\n"
             key = "cmd|%s|%s" % (ctx, ";".join(("%s %s" % (c, a[:12] + ("~%d" % len(a) if len(a) > 12 else ""))).strip() for c, a in s))
             yield (key, argv, files, text.encode("latin-1"))
 
